@@ -12,7 +12,7 @@ Inductive rchunk :=
   | RRaw (t:str)                      (* a chunk the harness does not interpret: marker, separator, anything unknown *)
   | RRunning (k:N)                    (* "-- Running ..." of the k-th step                                         *)
   | RStmt (k:N) (p:N) (auto:bool)     (* p-th statement of the k-th migration; auto: written inside autocommit_block *)
-  | RVersion (k:N)                    (* a version-table INSERT/UPDATE/DELETE emitted by the k-th step            *)
+  | RVersion (k j:N)                  (* the j-th version-table INSERT/UPDATE/DELETE emitted by the k-th step     *)
   | RCreate (k:N)                     (* CREATE TABLE alembic_version, emitted in the k-th step                   *)
   | RDrop.                            (* DROP TABLE alembic_version                                               *)
 
